@@ -160,6 +160,7 @@ WALLET_ASSUME = COMMON_ASSUME + [
 def c18(tier):
     hs = [w_h('VHarnessSelect', 'offline selection kernel: 1..3 held proofs of 2^0..2^4 on one keyset, ppk in {0,100,250,500,1000,2000}, every amount in 1..balance', must_reach=('selected', 'selection-failed')),
           w_h('VHarnessSend', 'Send end to end (selection, swap at the fake mint, change): 1..2 held proofs of 2^0..2^3 on active/inactive keysets, every ppk pair of the set, every amount, fees on/off', must_reach=('sent',), timeout_s=900),
+          w_h('VHarnessSendReloaded', 'Send end to end after a wallet restart (mint / keyset view rebuilt from the store by the real loadWalletMints): 1..2 held proofs of 2^0..2^2 on active/inactive keysets, ppk in {0,100,1000} per keyset, every amount, fees on/off', must_reach=('sent', 'send-failed'), timeout_s=900),
           w_h('VHarnessSendMixed3', 'Send end to end: exactly 3 held proofs of 2^0..2^2, the first on the inactive keyset and the other two on the active one, ppk in {0,1000} per keyset, every amount, fees on/off', must_reach=('sent',), timeout_s=1500)]
     if tier == 'thorough':
         hs += [w_h('VHarnessSelectWide', 'selection kernel: 1..4 proofs of 2^0..2^5', must_reach=('selected',), timeout_s=3000),
